@@ -73,6 +73,8 @@ var c09Fns = []c09Fn{
 	{name: "stddev-big-by", op: "stddev_over_time", unwrap: true, group: true, vals: "big"},
 	{name: "stdvar-big-by", op: "stdvar_over_time", unwrap: true, group: true, vals: "big"},
 	{name: "avg-big-by", op: "avg_over_time", unwrap: true, group: true, vals: "big"},
+	{name: "sum-huge", op: "sum_over_time", unwrap: true, vals: "huge"},
+	{name: "max-huge-by", op: "max_over_time", unwrap: true, group: true, vals: "huge"},
 	{name: "sum-bytes", op: "sum_over_time", unwrap: true, conv: "bytes", vals: "bytes"},
 	{name: "max-duration-by", op: "max_over_time", unwrap: true, conv: "duration", group: true, vals: "dur"},
 	{name: "avg-duration-seconds-by", op: "avg_over_time", unwrap: true, conv: "duration_seconds", group: true, vals: "dur"},
@@ -100,6 +102,8 @@ func c09Data(in c09Input, fn c09Fn) []mockq.Rec {
 				v = "3"
 			case "big": // large values lying close together (a variance from sums of squares cancels)
 				v = strconv.Itoa(10000000 + s + k)
+			case "huge": // whole numbers of ten and more digits, around 2^32 and far beyond
+				v = []string{"4294967295", "4294967296", "4294967297", "5000000000", "99999999999", "9007199254740993"}[(s+k)%6]
 			case "bytes":
 				v = []string{"2KB", "1KiB", "512B", "3MB"}[s%4]
 			case "dur":
@@ -343,6 +347,8 @@ func c09Run(r *vkit.Run) {
 								span = 8
 							}
 							c09Check(r, c09Input{Many: many, Fn: fn.name, RangeS: rg, StartS: 3, SpanS: span, StepS: step, TimeFilter: true})
+							// the same next to a second, sparse series that starts inside the busy one's window
+							c09Check(r, c09Input{Many: many, B: true, Fn: fn.name, RangeS: rg, StartS: 3, SpanS: span, StepS: step, TimeFilter: true})
 						}
 					}
 				}
